@@ -36,7 +36,7 @@ def main():
         'setup_cmd': 'cd /verif && ./setup.sh',
         'hooks': {'guard': 'verif', 'enable': 'go test -tags verif -overlay <harness overlay> (hooks are `if utils.VerifOn { utils.Verif(...) }` one-liners)',
                   'baseline_off_cmd': BASELINE_OFF,
-                  'source_commits': ['ab90584', 'e3eb092'], 'add_only': True},
+                  'source_commits': ['ab90584', 'e3eb092', '9137260'], 'add_only': True},
         'engines': [
             {'name': 'tlc', 'path': '/verif/spec', 'serves_properties': sorted(CLAIMS), 'kind_free_text': 'TLA+ specification Bucket.tla + MC_*/Trace_* configurations checked with TLC'},
             {'name': 'go-harness', 'path': '/verif/harness', 'serves_properties': sorted(CLAIMS), 'kind_free_text': 'in-package Go test files overlaid on /repo (never copied into it); executes scenarios, records ndjson traces'},
